@@ -260,3 +260,252 @@ func init() {
 		queueDeletersUnused(r, "C10-R6", "deleteValidatorAward")
 	})
 }
+
+// pruningConfig: the retention option given to the multistore is the one every substore gets (C12-R10).
+func pruningConfig(r *Run, rule string) {
+	P := r.P
+	r.Rule(rule, "the configured retention is the one applied: rootmulti.SetPruning records its argument and hands that same argument to every loaded substore; stores loaded later receive rs.pruningOpts", 3)
+	if f := r.fn(rmS + "SetPruning"); f != nil {
+		rec := false
+		Instrs(f, func(in ssa.Instruction) {
+			if st, ok := in.(*ssa.Store); ok && P.TermAt(st.Addr, st).String() == "&param:rs.pruningOpts" {
+				rec = P.TermAt(st.Val, st).String() == "param:pruningOpts"
+			}
+		})
+		r.Check(rec, rule, "SetPruning/records-argument", P.Pos(f.Pos()), "rs.pruningOpts = pruningOpts", "SetPruning does not record its argument in rs.pruningOpts")
+		for _, c := range CallsIn(f, "store/types.CommitStore.SetPruning") {
+			a := argTerm(P.callTerm(c), 1).String()
+			r.Check(a == "param:pruningOpts", rule, "SetPruning/substores-get-argument", P.InstrPos(c), a, "substores receive "+a+" ; required the new option (param:pruningOpts): a store already loaded would keep pruning with the previous option")
+			only := true
+			for _, at := range P.Guards(c, 0) {
+				if at.T.String() != "next(range(param:rs.stores))#0" {
+					only = false
+				}
+			}
+			r.Check(only, rule, "SetPruning/every-substore", P.InstrPos(c), "every loaded substore", "only some substores receive the option: {"+strings.Join(atomStrings(P.Guards(c, 0)), " ; ")+"}")
+		}
+		if len(CallsIn(f, "store/types.CommitStore.SetPruning")) == 0 {
+			r.Viol(rule, "SetPruning/substores-get-argument", P.Pos(f.Pos()), "SetPruning no longer forwards the option to the loaded substores")
+		}
+	}
+	if f := r.fn(rmS + "loadCommitStoreFromParams"); f != nil {
+		n := 0
+		for _, c := range CallsIn(f, "store/iavl.LoadStore") {
+			n++
+			t := P.callTerm(c).String()
+			r.Check(strings.Contains(t, "param:rs.pruningOpts"), rule, "loadCommitStoreFromParams/iavl-gets-configured-option", P.InstrPos(c), "LoadStore(…, rs.pruningOpts, …)", "IAVL substores are loaded with "+oneLine(t)+" ; required rs.pruningOpts")
+		}
+		if n == 0 {
+			r.Viol(rule, "loadCommitStoreFromParams/iavl-gets-configured-option", P.Pos(f.Pos()), "no iavl.LoadStore call")
+		}
+	}
+}
+
+// queryStoreHeight: the height injected for a height-0 store query is the height the substore is asked for (C14-R7).
+func queryStoreHeight(r *Run, rule string) {
+	P := r.P
+	r.Rule(rule, "handleQueryStore asks the multistore for the height it reports: when the client gave no height, the latest block height is written into the request that is passed to Queryable.Query, and the same value is reported in the response", 2)
+	f := r.fn("baseapp.handleQueryStore")
+	if f == nil {
+		return
+	}
+	lbh := "(*baseapp.BaseApp).LastBlockHeight(param:app)"
+	if c := r.oneCall(rule, "handleQueryStore", f, "store/types.Queryable.Query"); c != nil {
+		a := argTerm(P.callTerm(c), 1).String()
+		r.Check(strings.Contains(a, "Height="+lbh), rule, "handleQueryStore/request-carries-injected-height", P.InstrPos(c), "request Height defaults to the latest height", "the request passed to the multistore is "+oneLine(a)+" ; required: its Height set to "+lbh+" when none was given (otherwise the substore answers from latest-1 while the response claims latest)")
+	}
+	ok := false
+	Instrs(f, func(in ssa.Instruction) {
+		if st, isSt := in.(*ssa.Store); isSt && strings.HasSuffix(P.TermAt(st.Addr, st).String(), "resp.Height") {
+			v := P.TermAt(st.Val, st).String()
+			ok = v == "phi("+lbh+", param:req.Height)" || v == "phi(param:req.Height, "+lbh+")"
+		}
+	})
+	r.Check(ok, rule, "handleQueryStore/reports-request-height", P.Pos(f.Pos()), "resp.Height = the request's height", "resp.Height is not set from the (defaulted) request height")
+}
+
+// mergeIteratorCompare: every key comparison of the merge iterator is direction-aware (C15-R8).
+func mergeIteratorCompare(r *Run, rule string) {
+	P := r.P
+	r.Rule(rule, "sibling agreement inside cacheMergeIterator: Key, Value, Next, Domain, skipCacheDeletes and skipUntilExistsOrInvalid compare keys only through iter.compare (which negates for descending iteration); bytes.Compare is called by compare alone", 6)
+	cmpUsers := 0
+	for _, f := range P.RepoFns {
+		n := short(f.String())
+		if !strings.HasPrefix(n, "(*store/cachekv.cacheMergeIterator).") {
+			continue
+		}
+		direct := CallsIn(f, "bytes.Compare")
+		if strings.HasSuffix(n, ").compare") {
+			r.Check(len(direct) == 2, rule, "compare/both-directions", P.Pos(f.Pos()), "bytes.Compare for ascending, negated for descending", fmt.Sprintf("compare has %d bytes.Compare calls (expected 2)", len(direct)))
+			continue
+		}
+		for _, c := range direct {
+			r.Viol(rule, short(n)+"/direction-aware-comparison", P.InstrPos(c), n+" compares keys with bytes.Compare directly: in a descending iteration it takes the other side than its siblings, which use iter.compare")
+		}
+		if k := len(CallsIn(f, "(*store/cachekv.cacheMergeIterator).compare")); k > 0 {
+			cmpUsers++
+			r.OK(rule, short(n)+"/direction-aware-comparison", P.Pos(f.Pos()), fmt.Sprintf("%d comparisons through iter.compare", k))
+		}
+	}
+	r.Stats["mergeiterator_methods_using_compare"] = cmpUsers
+	// Key and Value must decide alike
+	kf, vf := r.fn("(*store/cachekv.cacheMergeIterator).Key"), r.fn("(*store/cachekv.cacheMergeIterator).Value")
+	if kf != nil && vf != nil {
+		kc, vc := CallsIn(kf, "(*store/cachekv.cacheMergeIterator).compare"), CallsIn(vf, "(*store/cachekv.cacheMergeIterator).compare")
+		r.Check(len(kc) == 1 && len(vc) == 1, rule, "Key≡Value/one-comparison-each", P.Pos(vf.Pos()), "one compare(keyP, keyC) each", fmt.Sprintf("Key has %d and Value has %d direction-aware comparisons (expected one each)", len(kc), len(vc)))
+	}
+}
+
+// cachekvWrapSelf: cache-wrapping a cachekv store stacks on that store, traced or not (C15-R9).
+func cachekvWrapSelf(r *Run, rule string) {
+	P := r.P
+	r.Rule(rule, "a nested wrapper sees its parent wrapper: cachekv.Store.CacheWrap = NewStore(store) and CacheWrapWithTrace = NewStore(tracekv.NewStore(store, w, tc)) — never the grandparent", 2)
+	if f := r.fn(ckS + "CacheWrap"); f != nil {
+		for _, ret := range Returns(f) {
+			t := P.TermAt(ret.Results[0], ret).String()
+			r.Check(t == "store/cachekv.NewStore(param:store)", rule, "CacheWrap/wraps-self", P.InstrPos(ret), t, "CacheWrap returns "+t)
+		}
+	}
+	if f := r.fn(ckS + "CacheWrapWithTrace"); f != nil {
+		for _, ret := range Returns(f) {
+			t := P.TermAt(ret.Results[0], ret).String()
+			r.Check(t == "store/cachekv.NewStore(store/tracekv.NewStore(param:store, param:w, param:tc))", rule, "CacheWrapWithTrace/wraps-self", P.InstrPos(ret), t, "CacheWrapWithTrace returns "+t+": the traced child bypasses this wrapper's unwritten entries and writes into the grandparent")
+		}
+	}
+}
+
+// addressEquals: address equality is byte equality; only two empty addresses are equal without comparing (C17-R6, C03-R9).
+func addressEquals(r *Run, rule string) {
+	P := r.P
+	r.Rule(rule, "owner / signer comparison is exact: Address.Equals returns true without comparing bytes only when BOTH addresses are empty, and otherwise returns bytes.Equal of the two", 2)
+	f := r.fn("(types.Address).Equals")
+	if f == nil {
+		return
+	}
+	for i, a := range P.RetAlternatives(f, 0) {
+		t := a.T.String()
+		key := fmt.Sprintf("Equals/alternative#%d", i)
+		switch t {
+		case "true":
+			e1, _ := HasAtom(a.G, `^\(types\.Address\)\.Empty\(param:aa\)$`)
+			e2, _ := HasAtom(a.G, `^\(types\.Address\)\.Empty\(param:aa2\)$`)
+			r.Check(e1 && e2, rule, key+"/true-only-if-both-empty", P.InstrPos(a.Ret), "both empty", "Equals returns true under {"+strings.Join(atomStrings(a.G), " ; ")+"} ; required both addresses empty (an empty sender would equal every owner)")
+		case "bytes.Equal((types.Address).Bytes(param:aa), (types.Address).Bytes(param:aa2))", "bytes.Equal((types.Address).Bytes(param:aa2), (types.Address).Bytes(param:aa))":
+			r.OK(rule, key+"/byte-equality", P.InstrPos(a.Ret), t)
+		case "false":
+			r.OK(rule, key+"/false", P.InstrPos(a.Ret), "false")
+		default:
+			r.Viol(rule, key+"/unknown-shape", P.InstrPos(a.Ret), "Equals returns "+t)
+		}
+	}
+}
+
+// govParamWriters: governance parameters change only through genesis and the ACL-checked ModifyParam (C17-R7).
+func govParamWriters(r *Run, rule string) {
+	P := r.P
+	r.Rule(rule, "no message-less governance change: gov Keeper.SetParams is called from InitGenesis only, and the gov module's BeginBlock / EndBlock perform no store write", 2)
+	if f := r.fn("(x/gov/keeper.Keeper).SetParams"); f != nil {
+		r.callersExactly(rule, "SetParams", r.edgesTo(f), []string{"(x/gov/keeper.Keeper).InitGenesis"})
+	}
+	E := P.Effects()
+	for _, n := range []string{"(x/gov.AppModule).BeginBlock", "(x/gov.AppModule).EndBlock"} {
+		if f := r.fn(n); f != nil {
+			r.Check(!E.mayWrite[f], rule, n+"/no-store-write", P.Pos(f.Pos()), "no store write reachable", n+" can write a store: a parameter, the ACL or the DAO balance would change without an authorised message")
+		}
+	}
+}
+
+// keybaseGetReadsDB: the keybase has one source of truth (C19-R6).
+func keybaseGetReadsDB(r *Run, rule string) {
+	P := r.P
+	r.Rule(rule, "the key used by Sign/Update/Delete/export is the stored one: every KeyPair returned by dbKeybase.Get is decoded from kb.db.Get(addrKey(address)) (no in-memory copy that Update/Delete do not refresh)", 1)
+	f := r.fn("(crypto/keys.dbKeybase).Get")
+	if f == nil {
+		return
+	}
+	src := "github.com/tendermint/tm-db.DB.Get(param:kb.db, crypto/keys.addrKey(param:address))"
+	for i, a := range P.RetAlternatives(f, 0) {
+		t := a.T.String()
+		if strings.HasPrefix(t, "zero:") {
+			continue
+		}
+		r.Check(strings.Contains(t, src), rule, fmt.Sprintf("Get/alternative#%d/from-db", i), P.InstrPos(a.Ret), oneLine(t), "dbKeybase.Get returns "+oneLine(t)+" ; required a record decoded from "+src)
+	}
+}
+
+// intDecodeRange: decoded integers respect the 255-bit bound exactly (C20-R6; same instance as C18-R2).
+func intDecodeRange(r *Run, rule string) {
+	P := r.P
+	r.Rule(rule, "Int decoding accepts exactly the values encoding can produce: unmarshalText succeeds only under !(BitLen > 255)", 1)
+	if f := r.fn("types.unmarshalText"); f != nil {
+		for i, ret := range P.successReturns(f, 0, "nil") {
+			ok, _ := HasAtom(P.Guards(ret, 0), `^!\(255 < \(\*math/big\.Int\)\.BitLen\(param:i\)\)$`)
+			r.Check(ok, rule, fmt.Sprintf("unmarshalText/success#%d/range-checked", i), P.InstrPos(ret), "decoded integers are range-checked at 255 bits", "unmarshalText's success is not guarded by !(BitLen > 255): values the constructors accept would not decode (or larger ones would)")
+		}
+	}
+}
+
+func init() {
+	extend("C12", func(r *Run) { pruningConfig(r, "C12-R10") })
+	extend("C13", func(r *Run) {
+		pruningWiring(r, "C13-R6")
+		pruningConfig(r, "C13-R7")
+	})
+	extend("C14", func(r *Run) { queryStoreHeight(r, "C14-R7") })
+	extend("C15", func(r *Run) {
+		mergeIteratorCompare(r, "C15-R8")
+		cachekvWrapSelf(r, "C15-R9")
+	})
+	extend("C17", func(r *Run) {
+		addressEquals(r, "C17-R6")
+		govParamWriters(r, "C17-R7")
+	})
+	extend("C03", func(r *Run) { addressEquals(r, "C03-R9") })
+	extend("C19", func(r *Run) { keybaseGetReadsDB(r, "C19-R6") })
+	extend("C20", func(r *Run) { intDecodeRange(r, "C20-R6") })
+}
+
+// decoderIsTotal: code that runs on raw transaction bytes outside runTx's recover never calls into the decoded message (C11-R11).
+func decoderIsTotal(r *Run, rule string) {
+	P := r.P
+	g := P.CG()
+	r.Rule(rule, "malformed bytes are rejected, not crashed on: the transaction decoder runs in CheckTx/DeliverTx outside runTx's recover, so nothing reachable from DefaultTxDecoder's closure invokes a method of the decoded sdk.Msg / sdk.Tx (a nil Msg or nil key would panic the process); CheckTx and DeliverTx touch the decoded tx only by passing it to runTx", 3)
+	isMsgInvoke := func(l string) bool {
+		return strings.HasPrefix(l, "invoke:types.Msg.") || strings.HasPrefix(l, "invoke:types.Tx.") || strings.HasPrefix(l, "invoke:types.ProtoMsg.") || strings.HasPrefix(l, "invoke:crypto.PublicKey.")
+	}
+	if dec := r.fn("x/auth/types.DefaultTxDecoder$1"); dec != nil {
+		reached := g.Reach([]*ssa.Function{dec}, nil)
+		bad := 0
+		for f := range reached {
+			for _, e := range g.Out[f] {
+				if e.Callee == nil && isMsgInvoke(e.Label) {
+					bad++
+					r.Viol(rule, "decoder/no-method-of-decoded-message:"+short(f.String())+":"+e.Label, P.InstrPos(e.Site), short(f.String())+" (reached from the tx decoder via "+g.PathTo(reached, f)+") calls "+e.Label+" on a value decoded from untrusted bytes, outside any recover: a transaction with a nil message or key panics the node")
+				}
+			}
+		}
+		if bad == 0 {
+			r.OK(rule, "decoder/no-method-of-decoded-message", P.Pos(dec.Pos()), fmt.Sprintf("%d functions reachable from the decoder, none invokes sdk.Msg / sdk.Tx / PublicKey methods", len(reached)))
+		}
+	}
+	for _, n := range []string{"(*baseapp.BaseApp).CheckTx", "(*baseapp.BaseApp).DeliverTx"} {
+		f := r.fn(n)
+		if f == nil {
+			continue
+		}
+		bad := false
+		for _, e := range g.Out[f] {
+			if e.Callee == nil && isMsgInvoke(e.Label) {
+				bad = true
+				r.Viol(rule, n+"/tx-only-passed-to-runTx:"+e.Label, P.InstrPos(e.Site), n+" calls "+e.Label+" outside runTx's recover")
+			}
+		}
+		if !bad {
+			r.OK(rule, n+"/tx-only-passed-to-runTx", P.Pos(f.Pos()), "no method of the decoded tx is invoked outside runTx")
+		}
+	}
+}
+
+func init() {
+	extend("C11", func(r *Run) { decoderIsTotal(r, "C11-R11") })
+}
